@@ -3,6 +3,7 @@
 and store it as /verif/seeded/<ID>-<k>/ {patch.diff, demo file, meta.json}. Works in scratch copies under /var/tmp."""
 import sys, os, subprocess, shutil, json, re, tempfile
 src, pid, k = sys.argv[1], sys.argv[2], sys.argv[3]
+tag = sys.argv[4] if len(sys.argv) > 4 else ""
 ENV = dict(os.environ, GOFLAGS="-mod=mod", GOPROXY="off", GOSUMDB="off", GOTOOLCHAIN="local", GOWORK="off")
 diff = os.path.join(src, "change%s.diff" % k)
 demo = os.path.join(src, "demo%s_test.go" % k)
@@ -30,6 +31,7 @@ try:
     rc, out = sh("go build ./... && go test -vet=off -count=1 ./...", r)
     res["suite_with_change_rc"] = rc
     if rc != 0: res["suite_out"] = out[-1500:]
+    os.makedirs(os.path.dirname(os.path.join(r, place)), exist_ok=True)
     shutil.copy(demo, os.path.join(r, place))
     pkg = "./" + os.path.dirname(place)
     flags = "-race " if race else ""
@@ -47,7 +49,7 @@ ok = res.get("apply_rc") == 0 and res.get("suite_with_change_rc") == 0 and res.g
 res["confirmed"] = ok
 print(json.dumps({k2: v for k2, v in res.items() if not k2.endswith("tail") and not k2.endswith("out")}))
 if ok:
-    dst = "/verif/seeded/%s-%s" % (pid, k)
+    dst = "/verif/seeded/%s-%s%s" % (pid, tag, k)
     os.makedirs(dst, exist_ok=True)
     shutil.copy(diff, os.path.join(dst, "patch.diff"))
     shutil.copy(demo, os.path.join(dst, os.path.basename(place)))
